@@ -62,6 +62,10 @@ Section Restraint.
   Definition harm_dUdk (v : var) (x c : T) : T :=
     nmul O (ndiv O half (wsq v)) (dist2 v x c).
 
+  (* harmonic energy from the squared distance of the variable's value type (unit vectors, quaternions, vectors:
+     the squared distances are those of coq/C18/ValueModel.v): 0.5 * force_k / (w*w) * dist2 *)
+  Definition harm_potential_d2 (k w d2 : T) : T := nmul O (ndiv O (nmul O half k) (nmul O w w)) d2.
+
   (* ---- linear ---- *)
   Definition lin_potential (k : T) (v : var) (x c : T) : T := nmul O (ndiv O k (v_width v)) (nsub O x c).
   Definition lin_force (k : T) (v : var) : T := nmul O (ndiv O (nmul O (nneg O (n1 O)) k) (v_width v)) (n1 O).
@@ -289,6 +293,33 @@ Section Restraint.
     mkM it itr false s1 (m_outs m ++ [(it, s1, o)]).
 
   Definition run (c : rcfg) (evs : list event) : mstate := fold_left (mstep c) evs (init_m c).
+
+  (* ---- histogramRestraint (colvarbias_restraint_histogram::update) on scalar variables ----
+     xs = the values of the variables (vector_size = their number), refp = the (normalised) reference histogram,
+     grid point g at lower + (g + 0.5) width; pi is passed in (the C++ uses the constant PI). *)
+  Definition hist_grid (lower width : T) (G : nat) : list T :=
+    map (fun g => nadd O lower (nmul O (nadd O (nofZ O (Z.of_nat g)) half) width)) (seq 0 G).
+  Definition hist_norm (pi sigma : T) (n : nat) : T :=
+    ndiv O (n1 O) (nmul O (nmul O (nsqrt O (nmul O two pi)) sigma) (nofZ O (Z.of_nat n))).
+  Definition hist_gauss (sigma xg x : T) : T :=
+    nexp O (ndiv O (nmul O (nmul O (nneg O (n1 O)) (nsub O xg x)) (nsub O xg x)) (nmul O (nmul O two sigma) sigma)).
+  Definition hist_p (pi sigma lower width : T) (G : nat) (xs : list T) : list T :=
+    map (fun xg => fold_left (fun a x => nadd O a (nmul O (hist_norm pi sigma (length xs)) (hist_gauss sigma xg x))) xs (n0 O))
+        (hist_grid lower width G).
+  Definition hist_diff (pi sigma lower width : T) (refp xs : list T) : list T :=
+    map2 (nsub O) (hist_p pi sigma lower width (length refp) xs) refp.
+  Definition hist_kcv (k : T) (xs : list T) : T := nmul O k (nofZ O (Z.of_nat (length xs))).
+  Definition hist_energy (k pi sigma lower width : T) (refp xs : list T) : T :=
+    fold_left (fun a d => nadd O a (nmul O (nmul O (nmul O half (hist_kcv k xs)) d) d))
+              (hist_diff pi sigma lower width refp xs) (n0 O).
+  Definition hist_forces (k pi sigma lower width : T) (refp xs : list T) : list T :=
+    map (fun x =>
+           fold_left (fun a gd =>
+                        nadd O a (nmul O (nmul O (nmul O (nmul O (hist_kcv k xs) (snd gd)) (hist_norm pi sigma (length xs)))
+                                                 (hist_gauss sigma (fst gd) x))
+                                         (ndiv O (nmul O (nneg O (n1 O)) (nsub O (fst gd) x)) (nmul O sigma sigma))))
+                     (combine (hist_grid lower width (length refp)) (hist_diff pi sigma lower width refp xs)) (n0 O))
+        xs.
 
   (* ---- ABMD (colvarbias_abmd::update) ---- *)
   Record abmd_state := mkAb { ab_init : bool; ab_ref : T }.
